@@ -64,6 +64,12 @@ class World:
         self.naddr = naddr
         self.socks = []
         self.tags = []          # ghost: per sendall, (sid, bytes sent, reply)
+        self.current_op = -1    # index of the public call in progress (set by the runners)
+        self.reply_by_op = None # optional: op index -> reply to its (single) sendall
+        self.foreign = []       # ghost: (reading op, owner op, sid) for every delivered byte answering another call
+        self.blocked = []       # ghost: ops whose recv found nothing owed
+        self.sent_by_op = {}    # ghost: op index -> list of (sid, bytes)
+        self.faults = []        # ghost: (op, sid, event kind, trace length) for every scripted failure raised
 
     def pop(self):
         if self.pos < len(self.script):
@@ -76,9 +82,12 @@ class World:
         self.trace.append(ev)
         o = self.pop()
         if isinstance(o, tuple):
+            self.faults.append((self.current_op, ev[1] if len(ev) > 1 else None, ev[0], len(self.trace)))
             raise make_exc(o[0])
 
     def reply_to(self, data):
+        if self.reply_by_op is not None:
+            return self.reply_by_op.get(self.current_op, b"")
         if self.peer is not None:
             return self.peer(data)
         if self.rpos < len(self.replies):
@@ -93,6 +102,7 @@ class FakeSocket:
         self.w, self.sid, self.addr = world, sid, addr
         self.closed = False
         self.avail = avail if avail is not None else bytearray()
+        self.owners = []        # ghost: for each byte of avail, the op whose command elicited it
         world.socks.append(self)
 
     def setsockopt(self, level, opt, val):
@@ -117,7 +127,9 @@ class FakeSocket:
         self.w.call((7, self.sid, bytes(data)))
         r = self.w.reply_to(bytes(data))
         self.w.tags.append((self.sid, bytes(data), bytes(r)))
+        self.w.sent_by_op.setdefault(self.w.current_op, []).append((self.sid, bytes(data)))
         self.avail += r
+        self.owners += [self.w.current_op] * len(r)
 
     def recv(self, size):
         self.w.trace.append((8, self.sid))
@@ -128,16 +140,24 @@ class FakeSocket:
         else:
             c = 1 << 62
         if isinstance(c, tuple):
+            w.faults.append((w.current_op, self.sid, 8, len(w.trace)))
             raise make_exc(c[0])
         if c is None:
+            w.faults.append((w.current_op, self.sid, 8, len(w.trace)))
             return b""
         if c == 0:
             raise OSError(errno.EINTR, "interrupted")
         if not self.avail:
+            self.w.blocked.append(self.w.current_op)
             raise WouldBlock("recv would block: nothing owed by the peer")
         n = max(int(c), 1)
         out = bytes(self.avail[:n])
+        for o in self.owners[:n]:
+            if o != self.w.current_op:
+                self.w.foreign.append((self.w.current_op, o, self.sid))
+                break
         del self.avail[:n]
+        del self.owners[:n]
         return out
 
     def close(self):
@@ -186,7 +206,9 @@ class FakeTLS:
         self.w.next_sid += 1
         self.w.trace.append((4, sock.sid, sid))
         ws = FakeSocket(self.w, sid, sock.addr, avail=sock.avail)
+        ws.owners = sock.owners
         sock.avail = bytearray()
+        sock.owners = []
         ws.raw = sock
         return ws
 
@@ -324,7 +346,7 @@ def canon_value(v):
     return ("other", repr(v))
 
 
-def run_impl(cfg, ops, script, choices=(), replies=(), make_client=None, peer=None):
+def run_impl(cfg, ops, script, choices=(), replies=(), make_client=None, peer=None, reply_by_op=None):
     """Run the real Client; returns (results, trace, final sid, unused script items, unused choices, world)."""
     from pymemcache.client.base import Client
     c = dict(DEFAULT_CFG)
@@ -334,7 +356,9 @@ def run_impl(cfg, ops, script, choices=(), replies=(), make_client=None, peer=No
     cl = make_client(server, kw) if make_client else Client(server, **kw)
     results = []
     world.bounds = []
-    for op in ops:
+    world.reply_by_op = reply_by_op
+    for i, op in enumerate(ops):
+        world.current_op = i
         try:
             results.append(("o", canon_value(apply_op(cl, op))))
         except BaseException as e:  # noqa
@@ -376,3 +400,76 @@ def decode_model(r):
         else:
             res.append(("e", core.EXN_NAMES[v]))
     return res, [tuple(e) for e in trace], sock, left, cleft, avail, discarded
+
+
+# ---------------------------------------------------------------- PooledClient
+def pool_handler_kind(repo=None):
+    repo = repo or core.REPO
+    tree = ast.parse(open(os.path.join(repo, "pymemcache/pool.py")).read())
+    for n in ast.walk(tree):
+        if isinstance(n, ast.FunctionDef) and n.name == "get_and_release":
+            for s in n.body:
+                if isinstance(s, ast.Try):
+                    names = [("BaseException" if h.type is None else getattr(h.type, "id", "?")) for h in s.handlers]
+                    return "BaseException" if "BaseException" in names else "Exception"
+    return "Exception"
+
+
+def apply_pooled_op(pc, op):
+    """PooledClient has its own signatures; call it the way a user of Client would"""
+    code = op[0]
+    if code == 19:
+        return pc.close()
+    if code == 18:
+        return pc.stats(*op[1])
+    return apply_op(pc, op)
+
+
+def run_pooled(cfg, pcfg, ops, script, choices=(), replies=(), clock=(), reply_by_op=None):
+    """Run the real PooledClient; -> (per-op (result, used, free), trace, unused script, unused choices, created, world)"""
+    from pymemcache.client.base import PooledClient, Client
+    c = dict(DEFAULT_CFG)
+    c.update(cfg)
+    world = World(script, choices, replies, c["naddr"])
+    server, kw = client_kwargs(cfg, world)
+    created = [0]
+
+    class CountingClient(Client):
+        def __init__(self, *a, **k):
+            created[0] += 1
+            Client.__init__(self, *a, **k)
+    pmax, pidle = pcfg
+    p = PooledClient(server, max_pool_size=(pmax if pmax < 1 << 30 else None), pool_idle_timeout=pidle, **kw)
+    p.client_class = CountingClient
+    clk = list(clock)
+
+    def tick():
+        return clk.pop(0) if clk else 0
+    p.client_pool._idle_clock = tick
+    results = []
+    world.reply_by_op = reply_by_op
+    for i, op in enumerate(ops):
+        world.current_op = i
+        try:
+            r = ("o", canon_value(apply_pooled_op(p, op)))
+        except BaseException as e:  # noqa
+            r = ("e", core.exn_name(e))
+        results.append((r, len(p.client_pool.used), len(p.client_pool.free)))
+    return (results, [tuple(e) for e in world.trace], len(world.script) - world.pos, max(0, len(world.choices) - world.cpos),
+            created[0], world, p)
+
+
+def pooled_req(cfg, pcfg, ops, script, choices=(), replies=(), clock=(), hk=None, hp=None):
+    hp = hp or pool_handler_kind()
+    return (2, (cfg_list(cfg, hk), [pcfg[0], pcfg[1], TAGS.get(hp, 4)], [enc_op(o) for o in ops], list(script), list(choices),
+                list(replies), list(clock)))
+
+
+def decode_pooled(r):
+    if r[0] != "ok":
+        return ("model-error", r)
+    results, trace, left, cleft, created = r[1]
+    res = []
+    for (kind, v), u, f in results:
+        res.append((("o", canon_value(v)) if kind == "o" else ("e", core.EXN_NAMES[v]), u, f))
+    return res, [tuple(e) for e in trace], left, cleft, created
